@@ -19,6 +19,8 @@ ASSUME = [
     "aggregator functions are replaced by their mathematical definition (the real ones are decided by C17)",
     "Lattice::join_mut is replaced by the mathematical join of the value's type (the real impls are decided by C16)",
     "counterexamples are reported only after replay on the natively compiled real program (real hash tables)",
+    "when the encoding gives up because rows pile up beyond its multiplicity bound (MAXM raised up to 4), the overflowing database (or, if the executor itself stops, six random databases / crash points) is run on the real build against the reference model: a reproduced problem is reported as a violation — a native observation, not a solver verdict — otherwise the job is inconclusive (exit 2)",
+    "queries whose counterexamples may be a known finding have a restricted twin that excludes the known finding's part of the input space and must be unsat as well",
 ]
 
 
